@@ -1314,3 +1314,21 @@ M("C15-benign-enclosing-walk-while", "C15", "src/cppparser/cppBison.yxx",
   "    for (CPPScope *scope = current_scope;\n         scope != nullptr;\n         scope = scope->get_parent_scope()) {\n      if (scope == declared_struct->get_scope()) {\n        names_enclosing_class = true;\n        break;\n      }\n    }",
   "    CPPScope *scope = current_scope;\n    while (scope != nullptr && !names_enclosing_class) {\n      if (declared_struct->get_scope() == scope) {\n        names_enclosing_class = true;\n      }\n      scope = scope->get_parent_scope();\n    }",
   benign=True)
+
+# ---------------------------------------------------------------- R11.7 (F-C11b)
+M("C11-zero-make-seq-stored", "C11", "src/interrogate/interrogateBuilder.cxx",
+  "      if (make_seq_index != 0) {\n        itype._make_seqs.push_back(make_seq_index);\n      }",
+  "      itype._make_seqs.push_back(make_seq_index);",
+  expect="R11.7|InterrogateBuilder::define_struct_type|_make_seqs.push_back(make_seq_index)|from-get_make_seq")
+M("C11-zero-element-stored", "C11", "src/interrogate/interrogateBuilder.cxx",
+  "        if (data_member != 0) {\n          itype._elements.push_back(data_member);\n        }",
+  "        itype._elements.push_back(data_member);",
+  expect="R11.7|InterrogateBuilder::define_struct_type|_elements.push_back(data_member)|from-scan_element")
+M("C11-zero-nested-type-stored", "C11", "src/interrogate/interrogateBuilder.cxx",
+  "        TypeIndex nested_index = get_type(type, false);\n        if (nested_index != 0) {\n          itype._nested_types.push_back(nested_index);\n        }",
+  "        TypeIndex nested_index = get_type(type, false);\n        itype._nested_types.push_back(nested_index);",
+  expect="R11.7|InterrogateBuilder::define_struct_type|_nested_types.push_back(nested_index)|from-get_type")
+M("C11-benign-zero-test-positive", "C11", "src/interrogate/interrogateBuilder.cxx",
+  "      if (make_seq_index != 0) {\n        itype._make_seqs.push_back(make_seq_index);\n      }",
+  "      if (make_seq_index > 0) {\n        itype._make_seqs.push_back(make_seq_index);\n      }",
+  benign=True)
